@@ -835,7 +835,7 @@ theorem uploadT_tag (verb : String) (path : Bytes) : AllT TagOk (uploadT verb pa
 theorem listingBlock_np (sink : Bytes) : AllP NP (do emit (.listing sink); forObservers (fun o => .obsFileList o sink)) := by
   allp
 
-theorem silence_np : AllP NP (modifyW fun b => { b with sinkSilent := true, sink := [] }) := by
+theorem silence_np : AllP NP (modifyW fun b => { b with sinkSilent := true, sink := [], sinkFailAt := none }) := by
   allp
 
 theorem fileListT_tag (path : Option Bytes) (names : Bool) : AllT TagOk (fileListT path names) := by
